@@ -875,3 +875,145 @@ func RunConcurrent(t *rapid.T, c *vk.Case, mk Factory, hasTotal, parallel bool) 
 	}
 	c.Sample(sample(sc, map[string]any{"schedule": s.log}))
 }
+
+// ---------------------------------------------------------------- (b') whole descheduling cycles
+
+// SetReturned records what Evict returned for this request (used by harness-owned plugins).
+func (r *Req) SetReturned(ok bool) { r.returned = &ok }
+
+// ProfileWork is what the plugins of one profile ask to evict in one cycle: one request list per Deschedule plugin and
+// one per Balance plugin.
+type ProfileWork struct {
+	Deschedule, Balance [][]*Req
+}
+
+// CycleSUT adapts a complete descheduler (profiles with Deschedule and Balance plugins sharing one eviction limiter).
+type CycleSUT struct {
+	Name string
+	// RunCycle runs ONE descheduling cycle; work[p] is what the plugins of profile p evict in it.
+	RunCycle         func(work []ProfileWork) error
+	NodeEvicted      func(node string) uint
+	NamespaceEvicted func(ns string) uint
+	TotalEvicted     func() int
+}
+
+// CycleFactory builds the descheduler with the given number of profiles and, per profile, Deschedule / Balance plugins.
+type CycleFactory func(sc *Scenario, env *Env, deschedulePlugins, balancePlugins []int) *CycleSUT
+
+// RunCycles drives 1..3 complete descheduling cycles. The caps are per cycle: everything the Deschedule plugins and the
+// Balance plugins of all profiles evict in one cycle is charged to one budget, and at the end of the cycle the reported
+// counters equal the evictions issued in that cycle.
+// Non-trivial: not dry-run and, in some cycle and some capped scope, both a Deschedule plugin and a Balance plugin ask
+// for an eviction that the API server would grant while together they ask for more than the cap.
+func RunCycles(t *rapid.T, c *vk.Case, mk CycleFactory) {
+	sc := &Scenario{}
+	for i, n := 0, rapid.IntRange(2, 4).Draw(t, "nodes"); i < n; i++ { // the descheduler refuses to run with fewer than 2 nodes
+		sc.Nodes = append(sc.Nodes, fmt.Sprintf("n%d", i))
+	}
+	for i, n := 0, rapid.IntRange(1, 3).Draw(t, "namespaces"); i < n; i++ {
+		sc.Namespaces = append(sc.Namespaces, fmt.Sprintf("ns%d", i))
+	}
+	sc.CapNode = genCap(t, "capNode", []int{-1, -1, 0, 1, 1, 2, 2, 3})
+	sc.CapNs = genCap(t, "capNs", []int{-1, -1, -1, 0, 1, 1, 2, 3})
+	sc.CapTotal = genCap(t, "capTotal", []int{-1, -1, -1, 0, 1, 2, 3, 4, 5})
+	sc.DryRun = rapid.IntRange(0, 9).Draw(t, "dryRun") == 0
+	failRate := rapid.SampledFrom([]int{0, 0, 1, 3}).Draw(t, "failRate")
+	nProfiles := rapid.SampledFrom([]int{1, 1, 1, 2}).Draw(t, "profiles")
+	var nD, nB []int
+	for p := 0; p < nProfiles; p++ {
+		nD = append(nD, rapid.SampledFrom([]int{1, 1, 0, 2}).Draw(t, "deschedulePlugins"))
+		nB = append(nB, rapid.SampledFrom([]int{1, 1, 0, 2}).Draw(t, "balancePlugins"))
+	}
+	nCycles := rapid.IntRange(1, 3).Draw(t, "cycles")
+	id := 0
+	genList := func(cycle int, phase string) []*Req {
+		var out []*Req
+		for i, n := 0, rapid.IntRange(0, 4).Draw(t, "requests"); i < n; i++ {
+			r := &Req{Worker: cycle, Index: id, Name: fmt.Sprintf("%s%d", phase, id)}
+			id++
+			r.Node = rapid.SampledFrom(sc.Nodes).Draw(t, "node")
+			r.Ns = rapid.SampledFrom(sc.Namespaces).Draw(t, "ns")
+			if rapid.IntRange(0, 7).Draw(t, "fail") < failRate {
+				r.Outcome = rapid.SampledFrom([]Outcome{NotFound, TooManyRequests, ServerError}).Draw(t, "failKind")
+			}
+			out = append(out, r)
+		}
+		return out
+	}
+	plan := make([][]ProfileWork, nCycles)
+	bothPhasesBite := false
+	for cy := 0; cy < nCycles; cy++ {
+		var all []*Req
+		dem := map[string]*tally{"d": newTally(), "b": newTally()}
+		for p := 0; p < nProfiles; p++ {
+			pw := ProfileWork{}
+			for i := 0; i < nD[p]; i++ {
+				l := genList(cy, "d")
+				pw.Deschedule = append(pw.Deschedule, l)
+				all = append(all, l...)
+			}
+			for i := 0; i < nB[p]; i++ {
+				l := genList(cy, "b")
+				pw.Balance = append(pw.Balance, l)
+				all = append(all, l...)
+			}
+			plan[cy] = append(plan[cy], pw)
+		}
+		for _, r := range all {
+			if r.Outcome == OK {
+				dem[r.Name[:1]].add(r)
+			}
+		}
+		bite := func(d, b uint, cap *uint) bool { return cap != nil && d >= 1 && b >= 1 && d+b > *cap }
+		for _, n := range sc.Nodes {
+			bothPhasesBite = bothPhasesBite || bite(dem["d"].node[n], dem["b"].node[n], sc.CapNode)
+		}
+		for _, n := range sc.Namespaces {
+			bothPhasesBite = bothPhasesBite || bite(dem["d"].ns[n], dem["b"].ns[n], sc.CapNs)
+		}
+		bothPhasesBite = bothPhasesBite || bite(dem["d"].total, dem["b"].total, sc.CapTotal)
+		sc.Workers = append(sc.Workers, all)
+	}
+
+	g := newGate(sc, false)
+	cs := mk(sc, &Env{Client: g.Client(), Recorder: &Recorder{g: g}}, nD, nB)
+	sut := &SUT{Name: cs.Name, HasCounters: true, NodeEvicted: cs.NodeEvicted, NamespaceEvicted: cs.NamespaceEvicted,
+		TotalEvicted: cs.TotalEvicted, CountersInDryRun: true}
+	done := 0
+	hist := func() string {
+		var s []string
+		for cy := 0; cy < done; cy++ {
+			var rs []string
+			for _, r := range sc.Workers[cy] {
+				rs = append(rs, r.String())
+			}
+			s = append(s, fmt.Sprintf("cycle %d: [%s]", cy+1, strings.Join(rs, "; ")))
+		}
+		return fmt.Sprintf("profiles: deschedule plugins %v, balance plugins %v; %s", nD, nB, strings.Join(s, " "))
+	}
+	for cy := 0; cy < nCycles; cy++ {
+		g.succeeded = nil // the caps and the counters are per cycle
+		if err := cs.RunCycle(plan[cy]); err != nil {
+			t.Fatalf("cycle %d did not run: %v", cy+1, err)
+		}
+		done = cy + 1
+		for _, r := range sc.Workers[cy] {
+			if r.returned == nil {
+				t.Fatalf("cycle %d: plugin request %s was never issued (harness wiring)", cy+1, r.key())
+			}
+		}
+		cur := *sc // the oracle looks at one cycle at a time
+		cur.Workers = [][]*Req{sc.Workers[cy]}
+		if check(t, c, &cur, g, sut, "sequential", true, hist) {
+			return
+		}
+	}
+	classify(c, sc, g, false)
+	c.ClassIf(nProfiles > 1, "two-profiles")
+	c.ClassIf(nCycles > 1, "several-cycles")
+	c.ClassIf(bothPhasesBite, "deschedule-and-balance-share-a-cap-that-bites")
+	if bothPhasesBite && !sc.DryRun {
+		c.NonTrivial(sc.String(), hist())
+	}
+	c.Sample(sample(sc, map[string]any{"plugins": fmt.Sprintf("deschedule %v balance %v", nD, nB)}))
+}
